@@ -415,7 +415,12 @@ func (p *Path) indexConst(s StrV, pat []byte) *smt.Term {
 	n := len(pat)
 	L := s.MaxLen()
 	ls := s.LenTerm()
+	mkey := "index|" + s.String() + "|" + string(pat)
+	if v, ok := p.memo[mkey]; ok {
+		return v.(IntV).T
+	}
 	j := p.fresh("idx", smt.SInt)
+	p.memo[mkey] = IntV{T: j}
 	// not found: for all k with k+n <= len: no match at k
 	var nf []*smt.Term
 	nf = append(nf, smt.Eq(j, smt.Int(-1)))
